@@ -15,8 +15,10 @@
 (*       "Sub"   item nested in the previous item                          *)
 (*       "Quote" quoted paragraph                                          *)
 (*       "Em"    paragraph whose links sit inside emphasis                 *)
+(*       "Em2"   ... inside strong emphasis inside emphasis (two spans)    *)
 (*       "Tbl"   table whose last cell holds the links                     *)
 (*       "Code"  code block (text is the body, no links)                   *)
+(*       "Meta"  front matter (only as the first block; text is its value) *)
 (* Link  == [url : Url, kind, text, ext]                                   *)
 (*   kind = "inline" | "wiki" | "piped" | "auto";  ext = TRUE for external *)
 (*   urls (http:, HTTPS:, mailto:), whose url.segs holds the whole url     *)
